@@ -198,6 +198,93 @@ def more_answered_once(P, R, xq, rule='C06.MPT.3'):
     R.floor(rule, 1)
 
 
+def lazily_forgotten(P, m, reuse):
+    """The lazy form of "a re-assigned slot's bits are forgotten": services and clients carry a stamp; a new service gets
+    a fresh one (a static counter, pre-incremented); wherever a client's mask m is looked at, the client has first been
+    brought up to date - the slot bits of every service stamped later than the client are cleared and the client takes
+    the counter's value.  Returns None when the unit has no such clearing walk, else (ok, text, site)."""
+    REC = 'iauth_xquery_client'
+    # clearing walks: `cli->m &= ...` inside a loop, under a test that mentions a member of the service record and a
+    # member of the client record (the two stamps)
+    walks = []
+    for f in P.unit_fns(UNIT):
+        for s in f.stores():
+            ev = s.ev
+            if not (ev['k'] == 'store' and ev.get('op') == '&=' and ev['lhs'].get('k') == 'mem' and ev['lhs'].get('field') == m and ev['lhs'].get('rec') == REC):
+                continue
+            if s.bid not in f.reach([e.dst for e in f.out[s.bid]]):
+                continue
+            for g in f.guards(s.bid):
+                fs = [(x.get('rec'), x.get('field')) for side in (g[0], g[2]) if isinstance(side, dict) for x in walk(side) if x.get('k') == 'mem']
+                es = [fl for r_, fl in fs if r_ == 'iauth_xquery_service']
+                ec = [fl for r_, fl in fs if r_ == REC]
+                if es and ec and es[0] not in ('refs', 'configured', 'type'):
+                    walks.append((f, s, es[0], ec[0]))
+    if not walks:
+        return None
+    f0, s0, e_s, e_c = walks[0]
+    if any((w[2], w[3]) != (e_s, e_c) for w in walks):
+        return (False, 'the clearing walks compare different stamps', s0)
+    # the counter: the static object the client's stamp is set from
+    counters = set()
+    for f in P.unit_fns(UNIT):
+        for s in f.stores():
+            ev = s.ev
+            if ev['k'] == 'store' and ev.get('op') == '=' and ev['lhs'].get('k') == 'mem' and ev['lhs'].get('field') == e_c and ev['lhs'].get('rec') == REC and is_var(ev.get('rhs')) and ev['rhs'].get('sc') not in ('local', 'param'):
+                counters.add(ev['rhs']['name'])
+    if len(counters) != 1:
+        return (False, 'the client stamp %s is not set from one static counter (%s)' % (e_c, sorted(counters)), s0)
+    G = sorted(counters)[0]
+    # (a) a service that takes a slot gets a fresh stamp: the store of the new record into the table is dominated by
+    #     (or in the block of) a store `srv->stamp = ++G`
+    for r in reuse:
+        f = r.fn
+        fresh = [t for t in f.stores() if t.ev['k'] == 'store' and t.ev.get('op') == '=' and t.ev['lhs'].get('k') == 'mem' and t.ev['lhs'].get('field') == e_s
+                 and isinstance(t.ev.get('rhs'), dict) and t.ev['rhs'].get('k') == 'un' and t.ev['rhs'].get('op') in ('++', 'pre++') and is_var(t.ev['rhs'].get('e'), G)]
+        if not fresh:
+            # `++G; srv->stamp = G;`
+            incs = [t for t in f.stores() if t.ev['k'] == 'store' and t.ev.get('op') in ('++', '+=') and is_var(t.ev.get('lhs'), G)]
+            fresh = [t for t in f.stores() if t.ev['k'] == 'store' and t.ev.get('op') == '=' and t.ev['lhs'].get('k') == 'mem' and t.ev['lhs'].get('field') == e_s and is_var(t.ev.get('rhs'), G)
+                     and any(i.bid == t.bid and i.idx < t.idx or (i.bid != t.bid and f.dominates(i.bid, t.bid)) for i in incs)]
+        if not any(t.bid == r.bid or f.dominates(t.bid, r.bid) for t in fresh):
+            return (False, 'the service put into a slot at %s does not get a fresh stamp (%s = ++%s) first' % (r.loc, e_s, G), r)
+    # (b) every look at the mask happens on an up-to-date client: on every path from the entry to the read either the
+    #     edge "stamp == counter" was taken or the stamp was set to the counter after a clearing walk
+    nreads = 0
+    for f in P.unit_fns(UNIT):
+        reads = []
+        for s in f.sites():
+            for ex in rules.event_exprs(s.ev):
+                lhs = s.ev.get('lhs') if s.ev['k'] == 'store' else None
+                for x in walk(ex):
+                    if x.get('k') == 'mem' and x.get('field') == m and x.get('rec') == REC and x is not lhs:
+                        reads.append(s.bid)
+        for bid, b_ in f.blocks.items():
+            c = (b_.get('term') or {}).get('cond')
+            if c is not None and any(x.get('k') == 'mem' and x.get('field') == m and x.get('rec') == REC for x in walk(c)):
+                reads.append(bid)
+        if not reads:
+            continue
+        sync_blocks = {t.bid for t in f.stores() if t.ev['k'] == 'store' and t.ev.get('op') == '=' and t.ev['lhs'].get('k') == 'mem' and t.ev['lhs'].get('field') == e_c and t.ev['lhs'].get('rec') == REC and is_var(t.ev.get('rhs'), G)}
+        cut = []
+        for bid in f.blocks:
+            for e in f.out[bid]:
+                r_ = rules.edge_rel(e)
+                if r_ and r_[1] == '==' and ((is_field(r_[0], e_c) and is_var(r_[2], G)) or (is_var(r_[0], G) and is_field(r_[2], e_c))):
+                    cut.append(e)
+        # the clearing walk itself reads nothing but the stamps; its own `&=` are not looks
+        walk_blocks = {w[1].bid for w in walks if w[0] is f}
+        entry = f.entry if hasattr(f, 'entry') else min(f.blocks)
+        seen = f.reach([entry], cut_edges=cut, cut_blocks=sync_blocks)
+        for bid in set(reads) - walk_blocks:
+            nreads += 1
+            if bid in seen and bid not in sync_blocks:
+                return (False, '%s looks at %s on a path on which the client was not brought up to date' % (f.name, m), f.blocks[bid].get('loc') and None)
+    if not nreads:
+        return (False, 'no look at %s found' % m, s0)
+    return (True, 'services carry %s (fresh from %s when a slot is taken), clients %s; %d look(s) at the mask, each after the client was brought up to date' % (e_s, G, e_c, nreads), s0)
+
+
 def slot_reuse_forgets(P, R, rule='C06.MPT.4'):
     """The per-client masks are indexed by service SLOT, and a slot a removed service leaves is handed to the next new
     service (it has to be: the masks are 32 bits wide).  A client in flight across that reload still carries the old
@@ -249,6 +336,11 @@ def slot_reuse_forgets(P, R, rule='C06.MPT.4'):
         rel_guarded = all(any(isinstance(g[0], dict) and on_path(g[0], 'refs') for g in s.fn.guards(s.bid)) for s in release)
         if pinned and rel_guarded:
             R.ob(rule, True, sets[0], 'a set bit of %s pins its slot: it is set together with a reference on the service, cleared where the reference is dropped, and a slot is released only when no reference is left' % m, key='slot-mask:%s' % m, nontrivial=False)
+            continue
+        lz = lazily_forgotten(P, m, reuse)
+        if lz is not None:
+            ok, why, site = lz
+            R.ob(rule, ok, site or reuse[0], 'a client\'s %s bit of a slot given to a new service is dropped before the mask is next looked at: %s' % (m, why), key='slot-reuse:%s' % m)
             continue
         cleared = []
         for f in cl.values():
@@ -309,11 +401,19 @@ ATOMS = ['slot', 'configured', 'prereq', 'unsent', 'pwevent', 'notdrone', 'pw', 
 
 def builder_guards(P, R, xq, b, mark_rule='C06.MPT.1'):
     srvv = None
+    qb = {s.bid for s in b.calls() if xq in P.callees(s, False)}
+    cands = []
     for s in b.sites():
         rhs = s.ev.get('rhs') if s.ev['k'] == 'store' else s.ev.get('init') if s.ev['k'] == 'decl' else None
         tgt = s.ev['lhs']['name'] if s.ev['k'] == 'store' and is_var(s.ev.get('lhs')) else s.ev.get('var') if s.ev['k'] == 'decl' else None
         if tgt and isinstance(rhs, dict) and rhs.get('k') == 'idx' and on_path(rhs, 'vec'):
+            cands.append((s, tgt))
+    # the walk that sends the queries (a folded helper may walk the table for a purpose of its own)
+    for s, tgt in cands:
+        if any(s.bid == q or b.dominates(s.bid, q) for q in qb):
             srvv = tgt
+    if srvv is None and cands:
+        srvv = cands[-1][1]
     if srvv is None:
         raise AnalysisBroken('builder does not walk the service table')
     flagp = b.params[1] if len(b.params) > 1 else None
